@@ -42,7 +42,7 @@ Qed.
 
 Lemma get_zeroed p sz : Zeroed p -> Zeroed (fst (get p sz)).
 Proof.
-  intros Z. unfold get. destruct (getScan (slots p) sz 0 regPoolSize) as [[i r]|]; [|exact Z].
+  intros Z. unfold get. destruct (getScan (slots p) sz 0 (length (slots p))) as [[i r]|]; [|exact Z].
   destruct r; try exact Z; cbn [fst]; unfold Zeroed; cbn [slots]; apply setNth_Forall; try exact Z; exact I.
 Qed.
 
@@ -50,7 +50,7 @@ Qed.
 Theorem get_zeroed_right_size p sz c :
   Zeroed p -> contents (snd (get p sz)) = Some c -> c = repeat 0 sz.
 Proof.
-  intros Z. unfold get. destruct (getScan (slots p) sz 0 regPoolSize) as [[i r]|] eqn:G.
+  intros Z. unfold get. destruct (getScan (slots p) sz 0 (length (slots p))) as [[i r]|] eqn:G.
   - destruct (getScan_spec _ _ _ _ _ _ G) as [->|(s & Hn & Hl & Hr)]; [discriminate|].
     assert (OK : slotOK s).
     { unfold Zeroed in Z. rewrite Forall_forall in Z. apply Z. eapply nth_error_In; eauto. }
@@ -62,7 +62,7 @@ Qed.
 
 Lemma release_zeroed p id c : Zeroed p -> Zeroed (fst (release p id c)).
 Proof.
-  intros Z. unfold release. destruct (relScan (slots p) (gen p) 0 regPoolSize) as [[i|]|]; try exact Z.
+  intros Z. unfold release. destruct (relScan (slots p) (gen p) 0 (length (slots p))) as [[i|]|]; try exact Z.
   cbn [fst]. unfold Zeroed. cbn [slots]. apply setNth_Forall; [exact Z|]. unfold slotOK. cbn. apply zeroed_repeat.
 Qed.
 
@@ -124,26 +124,23 @@ Proof.
   - apply nth_error_None in E. lia.
 Qed.
 
-Theorem pool_no_panic os : forall p, (regPoolSize <= length (slots p))%nat ->
+Theorem pool_no_panic os : forall p,
   Forall (fun r => r <> RGet GPanic /\ r <> RRel RPanic) (run p os).
 Proof.
-  induction os as [|o os IH]; intros p L; simpl; [constructor|].
+  induction os as [|o os IH]; intros p; simpl; [constructor|].
   destruct (step p o) as [p' r] eqn:S.
-  assert (L' : (regPoolSize <= length (slots p'))%nat /\ r <> RGet GPanic /\ r <> RRel RPanic).
-  { destruct o; cbn [step] in S.
-    - unfold get in S. destruct (getScan (slots p) sz 0 regPoolSize) as [[i g]|] eqn:G.
-      + assert (g <> GPanic) by (eapply getScan_nopanic; [|exact G]; simpl; lia).
-        destruct g; try congruence; inversion S; subst; cbn [slots]; rewrite setNth_length;
-          (split; [exact L|split; discriminate]).
-      + inversion S; subst. cbn [slots]. split; [exact L|split; discriminate].
-    - unfold release in S. pose proof (relScan_nopanic (slots p) (gen p) regPoolSize 0) as NP.
-      destruct (relScan (slots p) (gen p) 0 regPoolSize) as [[i|]|].
-      + inversion S; subst. cbn [slots]. rewrite setNth_length. split; [exact L|split; discriminate].
-      + exfalso. apply NP; [simpl; lia|reflexivity].
-      + inversion S; subst. split; [exact L|split; discriminate].
-    - inversion S; subst. unfold scribble. destruct (nth_error (slots p) i) as [[[[id c]|] e]|];
-        cbn [slots]; rewrite ?setNth_length; (split; [exact L|split; discriminate]). }
-  destruct L' as (L1 & L2). constructor; [exact L2|]. apply IH. exact L1.
+  constructor; [|apply IH].
+  destruct o; cbn [step] in S.
+  - unfold get in S. destruct (getScan (slots p) sz 0 (length (slots p))) as [[i g]|] eqn:G.
+    + assert (g <> GPanic) by (eapply getScan_nopanic; [|exact G]; simpl; lia).
+      destruct g; try congruence; inversion S; subst; split; congruence.
+    + inversion S; subst. split; discriminate.
+  - unfold release in S. pose proof (relScan_nopanic (slots p) (gen p) (length (slots p)) 0) as NP.
+    destruct (relScan (slots p) (gen p) 0 (length (slots p))) as [[i|]|].
+    + inversion S; subst. split; discriminate.
+    + exfalso. apply NP; [simpl; lia|reflexivity].
+    + inversion S; subst. split; discriminate.
+  - inversion S; subst. split; discriminate.
 Qed.
 
 (* ---- continuation pools ---- *)
